@@ -132,6 +132,22 @@ FIXED += [
      {"family": "nested_calls", "second": None, "std": "f2003", "sizes": [1, 2, 4, 8, 16]}),
 ]
 
+def c19(text, body, form="free", analyze=False):
+    return {"mode": "raw", "form": form, "analyze": analyze, "text": text, "expected_body": body}
+
+
+FIXED += [
+    ("C19", "reparse-text-differs", "5eb711b", "fparser1: the terminal statement of a shared-label DO nest was held by every loop of the nest and regenerated once per loop; each re-parse added another copy",
+     c19("subroutine s\ndo 10 i = 1, 2\ndo 10 j = 1, 2\nx = 1\n10 continue\nend\n",
+         ["SUBROUTINE s()", "DO 10 i = 1, 2", "DO 10 j = 1, 2", "x = 1", "10 CONTINUE", "END SUBROUTINE s"])),
+    ("C19", "reparse-text-differs", "5bdde37", "fparser1: '10 if (c) y = 1' was regenerated as '10 IF (c) 10 y = 1' (the action statement inherited the label); each round glued on another",
+     c19("subroutine s\n10 if (c) y = 1\nend\n", ["SUBROUTINE s()", "10 IF (c) y = 1", "END SUBROUTINE s"])),
+    ("C19", "statement-text-changed", "0490ebf", "fparser1: one-line WHERE regenerated with F2PY_EXPR_TUPLE_n placeholders instead of its subscripts",
+     c19("subroutine s\nwhere (a > 0) b(1:3) = a(2:4)**2.5\nend\n", ["SUBROUTINE s()", "WHERE ( a > 0 ) b(1:3) = a(2:4)**2.5", "END SUBROUTINE s"])),
+    ("C19", "statement-text-changed", "c5b12fb", "fparser1: 'common /a/ x // y' regenerated as 'COMMON / a / x y' (blank common lost its slashes)",
+     c19("subroutine s\ncommon /a/ x(5) // y\nend\n", ["SUBROUTINE s()", "COMMON / a / x(5) // y", "END SUBROUTINE s"])),
+]
+
 OPEN = [
     ("C03", "defined-binary-op-with-dotted-right", "a defined binary operator with a dotted operator or logical literal to its right at the same parenthesis level is not parsed (Expr.match splits at the right-most .word. and gives up if that one is intrinsic)",
      {"mode": "expr", "text": "a .x. b .and. c", "expected": "(a.x.(b.and.c))", "context": "expr", "known": True}),
